@@ -9,6 +9,7 @@ HARNESS = os.path.join(VERIF, "harness")
 TLAJAR = "/opt/veriftools/tla/tla2tools.jar:/opt/veriftools/tla/CommunityModules-deps.jar"
 NCPU = os.cpu_count() or 4
 T0 = time.time()
+ABORTS = []   # harness shards that stopped early (repeated hangs)
 
 
 class Inconclusive(Exception):
@@ -121,6 +122,10 @@ def run_harness(binary, family, inp, shards=None, seed_=None, timeout=3600, extr
                 line = line.strip()
                 if line:
                     recs.append(json.loads(line))
+    aborted = [r for r in recs if "abort" in r]
+    recs = [r for r in recs if "abort" not in r]
+    if aborted:
+        ABORTS.extend(aborted)
     return recs
 
 
@@ -185,6 +190,8 @@ def tlc(module, cfg, workers=None, timeout=1800, heap="4g", extra=None, files=No
                 res.violation = line.strip()
             if line.startswith("Error: Deadlock reached"):
                 res.violation = "deadlock"
+            if line.startswith("Error: Postcondition") and "is false" in line:
+                res.violation = "postcondition false (trace not accepted)"
     res.raw_tail = "".join(tail[-120:])
     res.ok = (p.returncode == 0 and res.violation is None)
     if p.returncode != 0 and res.violation is None:
@@ -254,6 +261,8 @@ class Check:
         self.known_hits.setdefault(fid, [0, what])[0] += 1
 
     def finish(self):
+        if ABORTS and not self.violations:
+            raise Inconclusive("harness stopped after repeated hangs (%d shard(s)); termination is decided by C15" % len(ABORTS))
         ev = {
             "property_id": self.pid, "tier": self.tier, "seed": seed(), "level": "model_checking",
             "coverage": {
@@ -284,6 +293,9 @@ class Check:
                 print("  violation:", d)
             print("VIOLATION property=%s replay=%s" % (self.pid, path))
             sys.exit(1)
+        stale = os.path.join(VERIF, "replays", "%s_%s_%d.json" % (self.pid, self.tier, seed()))
+        if os.path.exists(stale):
+            os.remove(stale)
         print("OK property=%s tier=%s states=%d evaluations=%d nontrivial=%d wall=%.0fs" % (
             self.pid, self.tier, self.states, self.evaluations, ev["coverage"]["distinct_nontrivial"], time.time() - T0))
         sys.exit(0)
